@@ -286,8 +286,11 @@ void* verif_rt___cxa_allocate_exception(u64 n) { return verif_alloc(n); }
 void verif_rt___cxa_free_exception(void* p) { verif_live_allocs--; }
 static void* verif_exc_type_of(void* o)
 {
-    for (int i = 0; i < VERIF_EXC_MAX; i++)
-        if (i < verif_exc_n && verif_exc_objs[i] == o) return verif_exc_types[i];
+    /* unrolled (VERIF_EXC_MAX == 4): an unknown or null object must not depend on the query's unwind bound */
+    if (0 < verif_exc_n && verif_exc_objs[0] == o) return verif_exc_types[0];
+    if (1 < verif_exc_n && verif_exc_objs[1] == o) return verif_exc_types[1];
+    if (2 < verif_exc_n && verif_exc_objs[2] == o) return verif_exc_types[2];
+    if (3 < verif_exc_n && verif_exc_objs[3] == o) return verif_exc_types[3];
     return 0;
 }
 void verif_rt___cxa_throw(void* o, void* ti, void* dtor)
@@ -347,12 +350,15 @@ void verif_rt__ZSt17current_exceptionv(void* out)
 void verif_rt__ZSt17rethrow_exceptionNSt15__exception_ptr13exception_ptrE(void* p)
 {
     void* o = *(void**) p;
+    VERIF_RT_ASSERT(o != 0, "std::rethrow_exception on a null exception_ptr: the error signal carries no exception");
     VERIF_EXC_OBJ = o;
     VERIF_EXC_TYPE = verif_exc_type_of(o);
     VERIF_EXC_PENDING = 1;
 }
 void verif_rt__ZNSt15__exception_ptr13exception_ptr9_M_addrefEv(void* p) {}
 void verif_rt__ZNSt15__exception_ptr13exception_ptr10_M_releaseEv(void* p) {}
+/* OS thread identity (std::this_thread::get_id): one distinct non-zero id per harness thread slot */
+u64 verif_rt_pthread_self(void) { return (u64) verif_cur + 1; }
 u32 verif_rt__ZSt18uncaught_exceptionv(void) { return 0; }
 u32 verif_rt__ZSt19uncaught_exceptionsv(void) { return 0; }
 
